@@ -359,7 +359,7 @@ func runC11(c *Ctx) {
 			{Name: "cap", Match: func(a *Atom) bool { return a.HasName("Capacity") && a.Has(o.buf) }},
 		}
 		CheckTable(c, "port-pop-table", "messaging.defaultPort."+o.name, p.Decl(f).Pos(), t, roles, dom,
-			func(v RoleVals) bool { return v["cap"] >= 1 && v["after"] >= 0 && v["after"] <= v["cap"]-1 },
+			func(v RoleVals) bool { return v["cap"] >= 1 && v["after"] >= 0 && v["after"] <= v["cap"] },
 			func(v RoleVals, r *Row) (bool, string) {
 				pop := callsOn(r, "Pop", o.buf)
 				if len(callsOn(r, "Pop", o.other)) != 0 {
@@ -381,8 +381,24 @@ func runC11(c *Ctx) {
 				if !strings.Contains(r.Out.Vals[0].Str, "Pop()") || !r.Out.Vals[0].HasObj(o.buf) {
 					return false, "the popped message must be returned"
 				}
-				// the buffer was full before the pop iff size_after == cap-1
-				if v["after"] == v["cap"]-1 && len(note) == 0 {
+				// the buffer was full before the pop iff size_after == cap-1, or — when the
+				// code samples the size before popping — iff size_before == cap
+				sizeAtom := r.Atom(func(a *Atom) bool { return !a.IsBool && a.HasName("Size") && a.Has(o.buf) })
+				popAtom := r.Atom(func(a *Atom) bool { return a.IsBool && strings.Contains(a.Key, "nil ==") && a.HasName("Pop") && a.Has(o.buf) })
+				sampledBefore := sizeAtom != nil && popAtom != nil && sizeAtom.Gen < popAtom.Gen
+				wasFull := v["after"] == v["cap"]-1
+				if sampledBefore {
+					if v["after"] == 0 {
+						return true, "" // infeasible: a message was popped from a buffer of size 0
+					}
+					wasFull = v["after"] == v["cap"]
+				} else if v["after"] > v["cap"]-1 {
+					return true, "" // infeasible: still full after a pop
+				}
+				if !wasFull && len(note) != 0 && sizeAtom != nil {
+					return false, "a " + o.notify + " notification is sent although the buffer was not full before the pop (a spurious wake-up at the wrong fill level)"
+				}
+				if wasFull && len(note) == 0 {
 					return false, "when the buffer was full before the pop the " + map[string]string{"RetrieveIncoming": "connection", "RetrieveOutgoing": "owner"}[o.name] + " must be notified (" + o.notify + "); otherwise the sender stalls forever"
 				}
 				for _, n := range note {
